@@ -205,7 +205,10 @@ OnRet(e) ==
   /\ sub' = [j \in Jobs |->
                IF j \in js /\ pc.op = "Add" THEN (IF e.ok THEN "acc" ELSE "rej")
                ELSE IF j \in js /\ pc.op = "AddAll" THEN
-                    (IF qclosed[QOf(j)] = "open" /\ (\A c \in Clients : pend[c].op # "QClose" \/ pend[c].qi # QOf(j)) THEN "acc" ELSE "unk")
+                    \* AddAll does not report per item: an item is certainly rejected if the queue's Close had returned before the call began,
+                    \* certainly accepted if no Close of the queue has begun by now, unknown otherwise
+                    (IF pc.qclosedBefore THEN "rej"
+                     ELSE IF qclosed[QOf(j)] = "open" /\ (\A c \in Clients : pend[c].op # "QClose" \/ pend[c].qi # QOf(j)) THEN "acc" ELSE "unk")
                ELSE sub[j]]
   /\ addRet' = [j \in Jobs |-> IF j \in js THEN l ELSE addRet[j]]
   /\ closeNil' = [j \in Jobs |-> closeNil[j] \/ (pc.op = "Close" /\ pc.job = j /\ e.res = "nil")]
